@@ -706,7 +706,15 @@ func runC01(c *Ctx) {
 			}
 			return 0, false
 		}
-		r.Relevant = func(*ssa.Function) bool { return false }
+		// the entry point may be split into unexported helpers (one of which makes the verification call): they are
+		// summarised; other entry points and the cores stay opaque events
+		entRegion := map[*ssa.Function]bool{}
+		for _, g := range unexportedRegion(ent) {
+			if g != ent && !entrySet[g] && !isCore(g) && !isChain(g) {
+				entRegion[g] = true
+			}
+		}
+		r.Relevant = func(g *ssa.Function) bool { return entRegion[g] }
 		r.Match = func(in ssa.Instruction) []esp.Ev {
 			if call, ok := in.(ssa.CallInstruction); ok && isAuth(call) {
 				authCalls++
@@ -797,6 +805,42 @@ func runC01(c *Ctx) {
 						if st, ok := in.(*ssa.Store); ok {
 							if fa, ok := st.Addr.(*ssa.FieldAddr); ok && flow.FieldName(fa) == "CertTableOptions" && fa.X == vopts {
 								mapVal = st.Val
+							}
+						}
+					}
+				}
+				// the options may come from an unexported helper that builds them and registers the entry before
+				// returning them: look at the object that helper returns
+				if mapVal == nil {
+					src := vopts
+					if ex, ok := src.(*ssa.Extract); ok {
+						src = ex.Tuple
+					}
+					if hc, ok := src.(*ssa.Call); ok {
+						if g := hc.Call.StaticCallee(); g != nil && g.Pkg == f.Pkg && g.Blocks != nil {
+							var obj ssa.Value
+							one := true
+							for _, gb := range g.Blocks {
+								if ret, ok := gb.Instrs[len(gb.Instrs)-1].(*ssa.Return); ok && len(ret.Results) > 0 {
+									if k, isK := ret.Results[0].(*ssa.Const); isK && k.IsNil() {
+										continue
+									}
+									if obj != nil && obj != ret.Results[0] {
+										one = false
+									}
+									obj = ret.Results[0]
+								}
+							}
+							if obj != nil && one {
+								for _, gb := range g.Blocks {
+									for _, in := range gb.Instrs {
+										if st, ok := in.(*ssa.Store); ok {
+											if fa, ok := st.Addr.(*ssa.FieldAddr); ok && flow.FieldName(fa) == "CertTableOptions" && fa.X == obj {
+												mapVal = st.Val
+											}
+										}
+									}
+								}
 							}
 						}
 					}
